@@ -22,6 +22,10 @@ def run(ctx, R, tier):
     pv = sorted(set(b.path for b in F.bodies if b.krate == 'kira' and 'effect::' in b.path for _, t in b.calls() if (callee_path(t) or '') == 'parameter::Parameter::<T>::previous_value'))
     R.check(not pv, 'B.C13.slicing', 'no-chunk-end-blend', '%s reads Parameter::previous_value(): its own interpolation between chunk ends depends on the chunk length' % pv, detail='effects use interpolated_value / value only')
     linear(F, R)
+    # an effect's handle works for as long as the effect runs: every effect of a track is given its on_start_processing (where it
+    # reads its commands) on every path of every callback (the C16 fan-out rule)
+    from .c16 import cover as fanout
+    fanout(F, R)
     from .c06 import defaults_match
     defaults_match(F, R, rule='B.C13.defaults')
     from ..enginea import run_engine_a
